@@ -107,7 +107,7 @@ theorem endFacts_parallel {inp : RunInput} {s : Sys} (hr : PReach inp s) (hh : s
     · exact a
 
 /-- at a complete end every member of the denotational closure has been reported -/
-theorem closure_reported {inp : RunInput} {s : Sys} (hnc : NoCalc inp) (hr : Reach inp s ∨ PReach inp s)
+theorem closure_reported {inp : RunInput} [NoFailDeliver inp] {s : Sys} (hnc : NoCalc inp) (hr : Reach inp s ∨ PReach inp s)
     (hend : s.rpc = .halted) (hhalt : s.halt = .none) (hstop : s.stop = false) (t : Name) (h : DenCl inp t) :
     Reported s t := by
   have hE : EndFacts inp s := by
@@ -133,7 +133,7 @@ theorem closure_reported {inp : RunInput} {s : Sys} (hnc : NoCalc inp) (hr : Rea
 
 /-- closure equality: at a complete end of a run — serial or parallel, any schedule — exactly the members of the
     denotational closure of the selection have a terminal report -/
-theorem reported_iff_closure {inp : RunInput} {s : Sys} (hnc : NoCalc inp) (hr : Reach inp s ∨ PReach inp s)
+theorem reported_iff_closure {inp : RunInput} [NoFailDeliver inp] {s : Sys} (hnc : NoCalc inp) (hr : Reach inp s ∨ PReach inp s)
     (hend : s.rpc = .halted) (hhalt : s.halt = .none) (hstop : s.stop = false) (t : Name) :
     Reported s t ↔ DenCl inp t :=
   ⟨reported_in_closure hnc hr t, closure_reported hnc hr hend hhalt hstop t⟩
